@@ -185,7 +185,17 @@ func checkC14(c c14Case) error {
 		// value ignores those methods
 		c14Ledger{ID: 7, Amount: *big.NewInt(1250), Rate: *big.NewFloat(1.5)}, c14Money{Cents: 1999, Currency: "EUR"},
 		c14Invoice{No: "A-1", Total: c14Money{Cents: 5, Currency: "USD"}}, []any{c14Money{Cents: 1, Currency: "CHF"}},
-		&c14Money{Cents: 42, Currency: "GBP"}, map[string]any{"m": c14Money{Cents: 3, Currency: "SEK"}}} {
+		&c14Money{Cents: 42, Currency: "GBP"}, map[string]any{"m": c14Money{Cents: 3, Currency: "SEK"}},
+		// typed nil containers and pointers (a result list that stayed empty, an optional section): their standard encoding
+		// is null, not [] or {}; empty non-nil containers next to them
+		map[string]any{"status": "ok", "rows": []any(nil)}, map[string]any{"meta": map[string]any(nil), "tags": []string(nil)},
+		[]any{[]any(nil), map[string]any(nil), (*int)(nil), []any{}, map[string]any{}}, []any(nil), map[string]any(nil),
+		map[string]any{"deep": []any{map[string]any{"rows": []any(nil), "empty": []any{}}}},
+		unsortedFields{Zeta: 6, Mid: map[string]any{}}, struct {
+			Rows []int          `json:"rows"`
+			Opt  *int           `json:"opt"`
+			M    map[string]int `json:"m"`
+		}{}} {
 		vi++
 		if (len(compact)+vi)%4 != 0 {
 			continue // every case takes a quarter of the typed values (by the length of its document)
